@@ -124,19 +124,34 @@ def run_impl(case, cir):
         arr = np.array([float(x) for x in t["theta0"]], dtype=np.float64).reshape(tuple(t["shape"]))
         ts.append(sg.Tensor(arr, requires_grad=bool(t["req"])))
     given = [i for i, t in enumerate(case["tensors"]) if t["given"]]
-    pos = {i: j for j, i in enumerate(given)}
     cls = getattr(impl.optim, case["class"])
-    opt = cls([ts[i] for i in given], **gen.ctor_kwargs(cir, case["hyper"]))
+    handed = [ts[i] for i in given]
+    opt = cls(handed, **gen.ctor_kwargs(cir, case["hyper"]))
     obs, problems, raised = [], [], None
+
+    def owned():
+        """which of our tensors the optimizer holds, by identity, in its order (-1: an object we did not give it)"""
+        lst = getattr(opt, "parameters", None)
+        if not isinstance(lst, (list, tuple)):
+            return None
+        return [next((i for i, t in enumerate(ts) if t is q), -1) for q in lst]
+
+    def position():
+        """tensor index -> position in optimizer.parameters (the index of its per-parameter state), by identity"""
+        return {i: j for j, i in enumerate(owned() or []) if i >= 0}
+    pos = position()
+    if owned() != given:
+        problems.append("optimizer.parameters holds tensors %s (by identity, in order) after construction, it was given %s" % (owned(), given))
 
     def flat(a):
         return [F(float(x)) for x in np.asarray(a, dtype=np.float64).reshape(-1)]
 
     def snapshot():
         rows = []
+        pos = position()
         for i, p in enumerate(ts):
             n = p.data.size
-            row = {"data": flat(p.data), "req": bool(p.requires_grad), "grad": None if p._grad is None else flat(p._grad), "slots": {}}
+            row = {"data": flat(p.data), "req": bool(p.requires_grad), "owned": i in pos, "grad": None if p._grad is None else flat(p._grad), "slots": {}}
             for name, kind in cir.slots:
                 lst = getattr(opt, name, None)
                 if i in pos and isinstance(lst, list) and pos[i] < len(lst):
@@ -150,10 +165,15 @@ def run_impl(case, cir):
                 elif isinstance(v, (int, float)):
                     row["slots"][name] = {"v": [F(v)] * n, "alias": False}
                 else:
+                    v = np.asarray(v)
                     alias = p._grad is not None and (v is p._grad or np.shares_memory(v, p._grad))
                     if np.shares_memory(v, p.data):
                         problems.append("slot %s of tensor %d shares memory with p.data" % (name, i))
-                    row["slots"][name] = {"v": flat(np.broadcast_to(v, p.data.shape)), "alias": bool(alias)}
+                    if v.shape not in ((), p.data.shape):
+                        problems.append("slot %s of tensor %d has shape %s, the parameter has %s" % (name, i, v.shape, p.data.shape))
+                        row["slots"][name] = {"v": [F(0)] * n, "alias": bool(alias)}
+                    else:
+                        row["slots"][name] = {"v": flat(np.broadcast_to(v, p.data.shape)), "alias": bool(alias)}
             rows.append(row)
         return {"t": int(opt.t), "tensors": rows}
 
@@ -183,8 +203,8 @@ def run_impl(case, cir):
                         problems.append("event %d: step changed dtype/shape of tensor %d: %s %s -> %s %s" % (k, i, dt, sh, p.data.dtype, p.data.shape))
                     if p._grad is not g0 or (gval is not None and not np.array_equal(p._grad, gval)):
                         problems.append("event %d: step changed the gradient of tensor %d" % (k, i))
-                    if (i not in pos or not rq) and not np.array_equal(p.data, val):
-                        problems.append("event %d: step moved tensor %d which %s" % (k, i, "is not a parameter of the optimizer" if i not in pos else "does not require grad"))
+                    if (i not in given or not rq) and not np.array_equal(p.data, val):
+                        problems.append("event %d: step moved tensor %d which %s" % (k, i, "is not a parameter of the optimizer" if i not in given else "does not require grad"))
             elif e[0] == "Freeze":
                 ts[e[1]].requires_grad = False
             elif e[0] == "Unfreeze":
@@ -192,7 +212,13 @@ def run_impl(case, cir):
         except Exception as ex:
             raised = "event %d (%s): %r" % (k, e[0], ex)
             break
-        obs.append(snapshot())
+        if owned() != given and not any("optimizer.parameters holds" in x for x in problems):
+            problems.append("event %d: optimizer.parameters holds tensors %s, it was given %s" % (k, owned(), given))
+        try:
+            obs.append(snapshot())
+        except Exception as ex:      # the optimizer keeps its state in a form the harness cannot read: stop observing, keep what we have
+            problems.append("event %d: optimizer state could not be observed: %r" % (k, ex))
+            break
     impl.reset_modes()
     return {"obs": obs, "problems": problems, "raised": raised}
 
@@ -328,11 +354,11 @@ def judge(case, cir, res=None):
     res = res or run_impl(case, cir)
     if res["raised"]:
         return ("raise", "the history raised: " + res["raised"], "no exception", res["raised"])
-    if res["problems"]:
-        return ("identity", res["problems"][0], "in-place update of exactly the given, gradient-requiring parameters", res["problems"])
     spec = run_spec(case)
     exact = case["class"] == "SGD"
     alias = None
+    if res["problems"]:
+        alias = ("identity", res["problems"][0], "the optimizer owns exactly the tensors it was given (in order) and updates them in place", res["problems"])
     for k, (o, s) in enumerate(zip(res["obs"], spec)):
         for i, (row, want) in enumerate(zip(o["tensors"], s)):
             for a, b in zip(row["data"], want):
@@ -414,10 +440,10 @@ Fixpoint trace (s : ost q_ops St) (h : list (ev qval)) : list (ost q_ops St) :=
   match h with [] => [] | e :: h' => let s' := do_ev q_ops St pstep s e in s' :: trace s' h' end.
 End Tr.
 
-Definition tobs (A : Type) := (list Q * bool * option (list Q) * A)%type.
+Definition tobs (A : Type) := (list Q * bool * bool * option (list Q) * A)%type.
 Definition obs_t {St A} (f : nat -> list qval -> St -> A) (p : param q_ops St) : tobs A :=
   let n := nelems (data p) in
-  (q_elems n (data p), req p, option_map (q_elems n) (grad_val q_ops St p), f n (heap p) (slots p)).
+  (q_elems n (data p), req p, given p, option_map (q_elems n) (grad_val q_ops St p), f n (heap p) (slots p)).
 Definition state_obs {St A} (f : nat -> list qval -> St -> A) (s : ost q_ops St) : nat * list (tobs A) :=
   (tcount s, map (obs_t f) (ps s)).
 
@@ -434,8 +460,8 @@ Section Eq.
 Variable qeq : Q -> Q -> bool.
 Definition leq := list_eqb qeq.
 Definition tobs_eqb {A} (aeqb : A -> A -> bool) (x y : tobs A) : bool :=
-  let '(d, r, g, a) := x in let '(d', r', g', a') := y in
-  leq d d' && Bool.eqb r r' && option_eqb leq g g' && aeqb a a'.
+  let '(d, r, o, g, a) := x in let '(d', r', o', g', a') := y in
+  leq d d' && Bool.eqb r r' && Bool.eqb o o' && option_eqb leq g g' && aeqb a a'.
 Definition sgd_seqb := option_eqb (pair_eqb leq Bool.eqb).
 Definition adam_seqb (x y : list Q * list Q * nat * bool * bool) : bool :=
   let '(a, b, k, u, v) := x in let '(a', b', k', u', v') := y in
@@ -491,7 +517,7 @@ def case_coq(cir, case, obs):
             else:
                 m1, m2 = row["slots"]["m1"], row["slots"]["m2"]
                 sl = "(%s, %s, %d%%nat, %s, %s)" % (ql(m1["v"]), ql(m2["v"]), row["slots"]["steps"], cb(m1["alias"]), cb(m2["alias"]))
-            rows.append("(%s, %s, %s, %s)" % (ql(row["data"]), cb(row["req"]), copt(row["grad"], ql), sl))
+            rows.append("(%s, %s, %s, %s, %s)" % (ql(row["data"]), cb(row["req"]), cb(row["owned"]), copt(row["grad"], ql), sl))
         states.append("(%d%%nat, %s)" % (o["t"], clist(rows)))
     return "((%s, %s, %s), %s)" % (hyper_coq(cir, case["hyper"]), params, hist, clist(states))
 
@@ -596,6 +622,16 @@ def run(ctx):
                 tensors = [{"shape": [2], "theta0": [F(1), F(-2)], "req": True, "given": True},
                            {"shape": [], "theta0": [F(4)], "req": True, "given": True}]
                 all_cases.append({"class": cname, "hyper": h, "tensors": tensors, "events": ev, "grid": True})
+            # initial state with a frozen parameter (freeze the backbone, build the optimizer, unfreeze after k steps) and a gradient-less one
+            for k in (0, 1, 2):
+                for first in (0, 1):
+                    tensors = [{"shape": [2], "theta0": [F(1), F(-2)], "req": first != 0, "given": True},
+                               {"shape": [], "theta0": [F(4)], "req": first != 1, "given": True},
+                               {"shape": [2, 2], "theta0": [F(1), F(0), F(-1), F(2)], "req": True, "given": True}]
+                    B1 = ["Backward", [[F(1), F(2)], [F(-1)], None]]
+                    B2 = ["Backward", [[F(2), F(-1)], [F(3)], [F(1), F(1), F(0), F(-2)]]]
+                    ev = [B1] + [["Step"]] * k + [["Unfreeze", first], B2, ["Step"], ["ZeroGrad"], B1, ["Step"]]
+                    all_cases.append({"class": cname, "hyper": h, "tensors": tensors, "events": ev, "grid": True})
         for _ in range(nrand):
             all_cases.append(gen_case(rng, cname, gen.random_hyper(cir, rng)))
     # corpus (minimised earlier findings) first
@@ -651,7 +687,7 @@ def run(ctx):
                     note=("bit-exact (dyadic float64 data vs Q)" if cname == "SGD" else
                           "relative 1e-9 against the Q model with a 40-digit rational sqrt (unavoidable: sqrt and division are not exact in float64)")
                          + "; observed after every event: p.data, requires_grad, p._grad, every optimizer slot and whether it is the gradient buffer object, opt.t; "
-                           "hyper-parameter grid x 4 canonical histories enumerated completely + seeded random histories (<= 8 events, 1-4 tensors of shape ()/(2,)/(2,2), one possibly not given)")
+                           "hyper-parameter grid x (4 canonical histories + 6 histories starting with a frozen and a gradient-less parameter, unfrozen after 0-2 steps) enumerated completely; whether the optimizer owns each tensor (by identity in optimizer.parameters) observed after every event + seeded random histories (<= 8 events, 1-4 tensors of shape ()/(2,)/(2,2), one possibly not given)")
         sel = [(c, r) for c, r in zip(all_cases, results) if r["obs"]]
         if sel:
             c, r = sel[len(sel) // 2]
